@@ -8,7 +8,7 @@
      spec_from        the whole property = judge spec_ok false (what check_case evaluates on gorm's answers)
      hist_known h     h puts the book into one of the five known-finding classes (input only)  *)
 From Verif Require Import Base C17_Model C17_Check C17_Known C17_Proofs C17_Proofs2 C17_Proofs3 C17_Proofs4
-  C17_Plugin5 C17_Exh1 C17_Exh3 C17_Exh7.
+  C17_Plugin5 C17_Exh1 C17_Exh3.
 From Coq Require Import Permutation.
 Open Scope string_scope.
 Open Scope list_scope.
@@ -160,21 +160,16 @@ Theorem c17_len3_exhaustive_row : forall h,
 Proof. exact (all_ok_extensions 3 alpha_row _ exh_row). Qed.
 Print Assumptions c17_len3_exhaustive_row.
 
-(* Query shape (three built-ins), two user names: 111715 histories. *)
+(* Query shape: three built-ins (named b1, b2, b3 - the model compares names only for equality), two
+   user names: 111715 histories. *)
 Theorem c17_len3_exhaustive_query : forall h,
   In h (extensions 3 alpha_query (builtin_steps (a_builtins alpha_query))) -> spec_run h || hist_known h = true.
 Proof. exact (all_ok_extensions 3 alpha_query _ exh_query). Qed.
 Print Assumptions c17_len3_exhaustive_query.
 
-(* Create shape (seven built-ins), two user names, at most 2 calls: 25397 histories. *)
-Theorem c17_len2_exhaustive_create : forall h,
-  In h (extensions 2 alpha_create (builtin_steps (a_builtins alpha_create))) -> spec_run h || hist_known h = true.
-Proof. exact (all_ok_extensions 2 alpha_create _ exh_create). Qed.
-Print Assumptions c17_len2_exhaustive_create.
-
+(* (Create shape, seven built-ins, at most 2 calls: Props_C17_Thorough.v, built in the thorough tier.) *)
 Theorem c17_exhaustive_sizes :
   count_ext 3 alpha_row (builtin_steps (a_builtins alpha_row)) = 150192%N
-  /\ count_ext 3 alpha_query (builtin_steps (a_builtins alpha_query)) = 111715%N
-  /\ count_ext 2 alpha_create (builtin_steps (a_builtins alpha_create)) = 25397%N.
-Proof. exact (conj exh_row_count (conj exh_query_count exh_create_count)). Qed.
+  /\ count_ext 3 alpha_query (builtin_steps (a_builtins alpha_query)) = 111715%N.
+Proof. exact (conj exh_row_count exh_query_count). Qed.
 Print Assumptions c17_exhaustive_sizes.
